@@ -141,6 +141,12 @@ def progress_obligations(rule='engine-progress'):
            E(fold.expect_no_indirect_call, 'no record is built (no indirect call)'), ('assume', 'eq', 1),
            'without payload and without force no (empty) record is emitted',
            rule=rule, noinline=NI, extra_hyps=[(_fl(off, 'oxc'), ('pinexpr', 'add', _fl(off, 'oxa', 0), 0))]),
+        Ob(S, 'br_ssl_engine_flush_record', Call('br_ssl_engine_has_pld_to_send'), ('pin', 1),
+           CALLDOM('sendpld_flush', desc='sendpld_flush on every path'), ('pin', 0),
+           'payload already accumulated in the output window (application bytes not yet flushed) must be sent as its own record before the '
+           'handshake or alert code writes: whether or not that code has written anything in this round',
+           rule=rule, noinline=NI + ('sendpld_ack', 'sendpld_buf', 'br_ssl_engine_has_pld_to_send'),
+           extra_hyps=[(_fl(off, 'hbuf_out'), ('pin', NONNULL)), (_fl(off, 'saved_hbuf_out'), ('pin', NONNULL))]),
     ]
     return obs
 
